@@ -1,8 +1,8 @@
 use proc_macro2::{Span, TokenStream};
 use quote::{quote, quote_spanned};
 use syn::{
-    parse_quote, punctuated::Punctuated, spanned::Spanned, Data, DeriveInput, Fields, GenericParam,
-    Generics, Path, Token,
+    ext::IdentExt, parse_quote, punctuated::Punctuated, spanned::Spanned, Data, DeriveInput,
+    Fields, GenericParam, Generics, Path, Token,
 };
 
 pub fn do_derive_schema(input: DeriveInput) -> syn::Result<TokenStream> {
@@ -93,7 +93,7 @@ impl Generator {
             }
             Data::Enum(data) => {
                 let variants = data.variants.iter().map(|v| {
-                    let (name, data) = (v.ident.to_string(), self.generate_variants(&v.fields));
+                    let (name, data) = (v.ident.unraw().to_string(), self.generate_variants(&v.fields));
                     quote! { #postcard_schema::schema::Variant { name: #name, data: #data } }
                 });
 
@@ -117,7 +117,7 @@ impl Generator {
             syn::Fields::Named(fields) => {
                 let fields = fields.named.iter().map(|f| {
                     let ty = &f.ty;
-                    let name = f.ident.as_ref().unwrap().to_string();
+                    let name = f.ident.as_ref().unwrap().unraw().to_string();
                     quote_spanned!(f.span() => &#postcard_schema::schema::NamedField { name: #name, ty: <#ty as #postcard_schema::Schema>::SCHEMA })
                 });
                 quote! { #postcard_schema::schema::Data::Struct(&[
@@ -153,7 +153,7 @@ impl Generator {
             syn::Fields::Named(fields) => {
                 let fields = fields.named.iter().map(|f| {
                     let ty = &f.ty;
-                    let name = f.ident.as_ref().unwrap().to_string();
+                    let name = f.ident.as_ref().unwrap().unraw().to_string();
                     quote_spanned!(f.span() => &#postcard_schema::schema::NamedField { name: #name, ty: <#ty as #postcard_schema::Schema>::SCHEMA })
                 });
                 quote! { #postcard_schema::schema::Data::Struct(&[
